@@ -10,7 +10,7 @@ extern size_t tjv_j, tjv_k;   /* ghost indices chosen nondeterministically by th
 int tinyjambu_aead_check_tag
     (unsigned char *plaintext, size_t plaintext_len,
      const unsigned char *tag1, const unsigned char *tag2, size_t size)
-__CPROVER_requires(plaintext_len <= 0x0fffffff && size <= 64)
+__CPROVER_requires(plaintext_len <= ((size_t)1 << 40) && size <= 64)
 __CPROVER_requires(__CPROVER_is_fresh(plaintext, plaintext_len))
 __CPROVER_requires(__CPROVER_is_fresh(tag1, size))
 __CPROVER_requires(__CPROVER_is_fresh(tag2, size))
